@@ -434,10 +434,9 @@ class CorrData(AsciiSerializable, SampledData, Broadcastable):
         if parallel.on_root():
             logger.info("reading %s from: %s.{dat,smp}", cls.__name__, path_prefix)
 
-            path_prefix = Path(path_prefix)
-
-            edges, closed, data = load_data(path_prefix.with_suffix(".dat"))
-            samples = load_samples(path_prefix.with_suffix(".smp"))
+            # append the extension, a prefix may contain dots (e.g. "nz_0.1")
+            edges, closed, data = load_data(Path(f"{path_prefix}.dat"))
+            samples = load_samples(Path(f"{path_prefix}.smp"))
             binning = Binning(edges, closed=closed)
 
             new = cls(binning, data, samples)
@@ -469,10 +468,9 @@ class CorrData(AsciiSerializable, SampledData, Broadcastable):
                 "writing %s to: %s.{dat,smp,cov}", type(self).__name__, path_prefix
             )
 
-            path_prefix = Path(path_prefix)
-
+            # append the extension, a prefix may contain dots (e.g. "nz_0.1")
             write_data(
-                path_prefix.with_suffix(".dat"),
+                Path(f"{path_prefix}.dat"),
                 self._description_data,
                 zleft=self.binning.left,
                 zright=self.binning.right,
@@ -482,7 +480,7 @@ class CorrData(AsciiSerializable, SampledData, Broadcastable):
             )
 
             write_samples(
-                path_prefix.with_suffix(".smp"),
+                Path(f"{path_prefix}.smp"),
                 self._description_samples,
                 zleft=self.binning.left,
                 zright=self.binning.right,
@@ -492,7 +490,7 @@ class CorrData(AsciiSerializable, SampledData, Broadcastable):
 
             # write covariance for convenience only, it is not required to restore
             write_covariance(
-                path_prefix.with_suffix(".cov"),
+                Path(f"{path_prefix}.cov"),
                 self._description_covariance,
                 covariance=self.covariance,
             )
